@@ -229,13 +229,23 @@ theorem readuntil_window_never_skips (seps : List Bytes) (seplen : Nat) (searche
       IsFirstEnd seps (searched ++ chunk) e) :=
   window_sound seps seplen searched chunk hlen hpos hno hinf
 
-/-- **readuntil with several separators** — holds under the hypothesis that no separator occurs inside another one
-    other than as its suffix (`NoEarlyInfix`; the unrestricted statement is false, see
-    `readuntil_multi_sep_unrestricted_false`), while reading is never paused (fewer bytes than the receive window
-    between separators): the result is the shortest prefix of the stream that ends in a separator, whatever the
-    chunking and wake-up grouping; `IncompleteReadError(everything)` if EOF comes first. -/
-theorem readuntil_multi_sep_partial (seps : List Bytes) (h0 : seps ≠ []) (hne : ∀ sep ∈ seps, sep ≠ [])
-    (hinf : NoEarlyInfix seps) (s : St) (sched : Sched) (hs : Inv s) (hc : Clean s sched)
+/-- the same for the search a separator LIST makes (one pattern per separator, earliest end): no condition on the
+    separators is needed -/
+theorem readuntil_window_never_skips_list (seps : List Bytes) (seplen : Nat) (searched chunk : Bytes)
+    (hlen : ∀ sep ∈ seps, sep ≠ [] ∧ sep.length ≤ seplen) (hpos : 0 < seplen) (hno : NoOcc seps searched) :
+    (srch true seps (searched ++ chunk) (searchStart searched.length seplen) = none →
+      NoOcc seps (searched ++ chunk)) ∧
+    (∀ e, srch true seps (searched ++ chunk) (searchStart searched.length seplen) = some e →
+      IsFirstEnd seps (searched ++ chunk) e) :=
+  window_sound_srch true seps seplen searched chunk hlen hpos hno (Or.inl rfl)
+
+/-- **readuntil with several separators** — for EVERY list of non-empty separators (also lists in which one
+    separator lies inside another: the code takes the match that ends first since the repair of F10), while reading
+    is never paused (fewer bytes than the receive window between separators): the result is the shortest prefix of
+    the stream that ends in a separator, whatever the chunking and wake-up grouping;
+    `IncompleteReadError(everything)` if EOF comes first. -/
+theorem readuntil_multi_sep (seps : List Bytes) (h0 : seps ≠ []) (hne : ∀ sep ∈ seps, sep ≠ [])
+    (s : St) (sched : Sched) (hs : Inv s) (hc : Clean s sched)
     (hnp : NoPause s (sdata sched).length) :
     (∀ e, IsFirstEnd seps (pend s ++ sdata sched) e →
       ∃ s' sched', readuntil seps s sched = (.ok ((pend s ++ sdata sched).take e), s', sched') ∧
@@ -249,8 +259,53 @@ theorem readuntil_multi_sep_partial (seps : List Bytes) (h0 : seps ≠ []) (hne 
   rw [pend_unpaused hs hnp.1]
   unfold readuntil
   simp only [he, Bool.false_eq_true, if_false]
-  exact untilLoop_spec seps (maxLen seps) (fun sep h => ⟨hne sep h, le_maxLen h⟩) (maxLen_pos h0 hne) hinf
-    sched s hs hc [] 0 (by omega) (by simp [dataOf]) (NoOcc_nil hne) hnp
+  exact untilLoop_spec true seps (maxLen seps) (fun sep h => ⟨hne sep h, le_maxLen h⟩) (maxLen_pos h0 hne)
+    (Or.inl rfl) sched s hs hc [] 0 (by omega) (by simp [dataOf]) (NoOcc_nil hne) hnp
+
+/-- **the result of readuntil does not depend on how the stream was cut into chunks or grouped into wake-ups**:
+    two schedules that carry the same bytes (and both / neither an EOF) give the same result, for every
+    separator list. -/
+theorem readuntil_multi_sep_chunk_independent (seps : List Bytes) (h0 : seps ≠ []) (hne : ∀ sep ∈ seps, sep ≠ [])
+    (s : St) (sched₁ sched₂ : Sched) (hs : Inv s) (hc₁ : Clean s sched₁) (hc₂ : Clean s sched₂)
+    (hnp : NoPause s (sdata sched₁).length) (hd : sdata sched₁ = sdata sched₂)
+    (he : eofComing s sched₁ = eofComing s sched₂) :
+    (readuntil seps s sched₁).1 = (readuntil seps s sched₂).1 := by
+  have hnp₂ : NoPause s (sdata sched₂).length := by rw [← hd]; exact hnp
+  obtain ⟨a1, a2, a3⟩ := readuntil_multi_sep seps h0 hne s sched₁ hs hc₁ hnp
+  obtain ⟨b1, b2, b3⟩ := readuntil_multi_sep seps h0 hne s sched₂ hs hc₂ hnp₂
+  rw [← hd, ← he] at b1 b2 b3
+  rcases firstEnd_or_noOcc seps (pend s ++ sdata sched₁) with ⟨e, hfe⟩ | hno
+  · obtain ⟨_, _, x1, _⟩ := a1 e hfe
+    obtain ⟨_, _, y1, _⟩ := b1 e hfe
+    rw [x1, y1]
+  · cases hec : eofComing s sched₁ with
+    | true =>
+      obtain ⟨_, _, x1, _⟩ := a2 hno hec
+      obtain ⟨_, _, y1, _⟩ := b2 hno hec
+      rw [x1, y1]
+    | false => rw [a3 hno hec, b3 hno hec]
+
+/-- **readuntil with a regex that is an alternation of literals** (`re.compile(b'sep1|sep2|...')`, the caller
+    states `max_separator_len ≥` every separator): the regex reports the leftmost START, so the result is the
+    shortest prefix ending in a separator under the hypothesis that no separator occurs inside another one other
+    than as its suffix (`NoEarlyInfix`; for other regexes the documentation's own warning applies, see
+    `regex_alternation_unrestricted_false`). -/
+theorem readuntil_regex_alternation_partial (seps : List Bytes) (m : Nat) (hm : 0 < m)
+    (hlen : ∀ sep ∈ seps, sep ≠ [] ∧ sep.length ≤ m)
+    (hinf : NoEarlyInfix seps) (s : St) (sched : Sched) (hs : Inv s) (hc : Clean s sched)
+    (hnp : NoPause s (sdata sched).length) :
+    (∀ e, IsFirstEnd seps (pend s ++ sdata sched) e →
+      ∃ s' sched', readuntilPat seps m s sched = (.ok ((pend s ++ sdata sched).take e), s', sched') ∧
+        PostU s' sched' ((pend s ++ sdata sched).drop e) (eofComing s sched)) ∧
+    (NoOcc seps (pend s ++ sdata sched) → eofComing s sched = true →
+      ∃ s' sched', readuntilPat seps m s sched = (.incomplete (pend s ++ sdata sched), s', sched') ∧
+        PostU s' sched' [] true) ∧
+    (NoOcc seps (pend s ++ sdata sched) → eofComing s sched = false →
+      (readuntilPat seps m s sched).1 = .blocked) := by
+  rw [pend_unpaused hs hnp.1]
+  unfold readuntilPat
+  exact untilLoop_spec false seps m hlen hm (Or.inr hinf) sched s hs hc [] 0 (by omega) (by simp [dataOf])
+    (NoOcc_nil (fun sep h => (hlen sep h).1)) hnp
 
 theorem NoEarlyInfix_single (sep : Bytes) : NoEarlyInfix [sep] := by
   intro a ha b hb d hd
@@ -275,8 +330,8 @@ theorem readuntil_single_sep (sep : Bytes) (hne : sep ≠ []) (s : St) (sched : 
   rw [pend_unpaused hs hnp.1]
   unfold readuntilOne
   simp only [he, Bool.false_eq_true, if_false]
-  exact untilLoop_spec [sep] sep.length (fun x h => by simp at h; subst h; exact ⟨hne, Nat.le_refl _⟩)
-    (List.length_pos_iff.mpr hne) (NoEarlyInfix_single sep)
+  exact untilLoop_spec false [sep] sep.length (fun x h => by simp at h; subst h; exact ⟨hne, Nat.le_refl _⟩)
+    (List.length_pos_iff.mpr hne) (Or.inr (NoEarlyInfix_single sep))
     sched s hs hc [] 0 (by omega) (by simp [dataOf]) (NoOcc_nil hne') hnp
 
 /-- **readline**: one line including its `\n`, or the rest of the stream at EOF (empty at EOF with nothing left) -/
@@ -289,7 +344,7 @@ theorem readline_spec (s : St) (sched : Sched) (hs : Inv s) (hc : Clean s sched)
       ∃ s' sched', readline s sched = (.ok (pend s ++ sdata sched), s', sched') ∧ PostU s' sched' [] true) ∧
     (NoOcc [[newline]] (pend s ++ sdata sched) → eofComing s sched = false → (readline s sched).1 = .blocked) := by
   obtain ⟨h1, h2, h3⟩ := readuntil_single_sep [newline] (by simp) s sched hs hc hnp
-  have hu : readuntilOne [newline] s sched = untilLoop [[newline]] 1 s [] 0 sched := by
+  have hu : readuntilOne [newline] s sched = untilLoop false [[newline]] 1 s [] 0 sched := by
     simp [readuntilOne]
   rw [hu] at h1 h2 h3
   unfold readline
@@ -302,7 +357,7 @@ theorem readline_spec (s : St) (sched : Sched) (hs : Inv s) (hc : Clean s sched)
     exact ⟨s', sched', by rw [e1], e2⟩
   · intro hno hec
     have := h3 hno hec
-    generalize untilLoop [[newline]] 1 s [] 0 sched = x at this ⊢
+    generalize untilLoop false [[newline]] 1 s [] 0 sched = x at this ⊢
     obtain ⟨r, s', l⟩ := x
     simp only at this
     subst this
@@ -314,28 +369,42 @@ def lit (s : String) : Bytes := s.toList.map fun c => UInt8.ofNat c.toNat
 /-- one wake-up per chunk, EOF at the end -/
 def deliverChunks (chunks : List Bytes) : Sched := chunks.map (fun c => [Arrival.data c]) ++ [[Arrival.eof]]
 
-/-- **Negation witness (candidate defect F10).**  Without the infix hypothesis `readuntil` with several separators
-    is *not* independent of the chunking: separators `abc`,`b` and stream `xabcd` give `xabc` when the stream
-    arrives in one chunk, but `xab` when it arrives as `xab`,`cd`. -/
+/-- **Witness of defect F10 (repaired).**  With the separator list compiled into one alternation, as the code did
+    before the repair (`readuntilPreFix`), `readuntil` with several separators was *not* independent of the
+    chunking: separators `abc`,`b` and stream `xabcd` gave `xabc` when the stream arrived in one chunk, but `xab`
+    when it arrived as `xab`,`cd`. -/
 theorem readuntil_multi_sep_unrestricted_false :
     ∃ (seps : List Bytes) (S : Bytes) (c₁ c₂ : List Bytes),
       seps ≠ [] ∧ (∀ sep ∈ seps, sep ≠ []) ∧ c₁.flatten = S ∧ c₂.flatten = S ∧
-      (readuntil seps {} (deliverChunks c₁)).1 = .ok (lit "xabc") ∧
-      (readuntil seps {} (deliverChunks c₂)).1 = .ok (lit "xab") :=
+      (readuntilPreFix seps {} (deliverChunks c₁)).1 = .ok (lit "xabc") ∧
+      (readuntilPreFix seps {} (deliverChunks c₂)).1 = .ok (lit "xab") :=
   ⟨[lit "abc", lit "b"], lit "xabcd", [lit "xabcd"], [lit "xab", lit "cd"],
     by decide, by decide, by decide, by decide, by decide, by decide⟩
 
-/-- ... hence the statement "for every separator list and every two chunkings of the same stream the results
-    agree" is false of the code as written. -/
+/-- ... hence "for every separator list and every two chunkings of the same stream the results agree" was false
+    of the code before the repair ... -/
 theorem readuntil_multi_sep_chunk_independence_false :
     ¬ ∀ (seps : List Bytes) (c₁ c₂ : List Bytes), seps ≠ [] → (∀ sep ∈ seps, sep ≠ []) → c₁.flatten = c₂.flatten →
-        (readuntil seps {} (deliverChunks c₁)).1 = (readuntil seps {} (deliverChunks c₂)).1 := by
+        (readuntilPreFix seps {} (deliverChunks c₁)).1 = (readuntilPreFix seps {} (deliverChunks c₂)).1 := by
   intro h
   have := h [lit "abc", lit "b"] [lit "xabcd"] [lit "xab", lit "cd"] (by decide) (by decide) (by decide)
   revert this
   decide
 
-/-- the witness separators violate exactly the hypothesis of `readuntil_multi_sep_partial` -/
+/-- ... while the repaired code returns `xab`, the shortest prefix ending in a separator, on both deliveries -/
+theorem readuntil_multi_sep_witness_repaired :
+    (readuntil [lit "abc", lit "b"] {} (deliverChunks [lit "xabcd"])).1 = .ok (lit "xab") ∧
+    (readuntil [lit "abc", lit "b"] {} (deliverChunks [lit "xab", lit "cd"])).1 = .ok (lit "xab") := by
+  constructor <;> decide
+
+/-- the same alternation handed over as a REGEX still depends on the chunking (the regex is the caller's; the
+    documentation warns about separators that are not unique at their start and end) -/
+theorem regex_alternation_unrestricted_false :
+    (readuntilPat [lit "abc", lit "b"] 3 {} (deliverChunks [lit "xabcd"])).1 = .ok (lit "xabc") ∧
+    (readuntilPat [lit "abc", lit "b"] 3 {} (deliverChunks [lit "xab", lit "cd"])).1 = .ok (lit "xab") := by
+  constructor <;> decide
+
+/-- the witness separators violate exactly the hypothesis of `readuntil_regex_alternation_partial` -/
 theorem witness_violates_NoEarlyInfix : ¬ NoEarlyInfix [lit "abc", lit "b"] := by
   intro h
   exact h (lit "b") (by simp) (lit "abc") (by simp) 1 (by decide) (by decide)
@@ -395,7 +464,7 @@ theorem readuntil_single_sep_example :
     (readuntilOne (lit "\r\n") {} (deliverChunks [lit "ab\r\ncd"])).1 = .ok (lit "ab\r\n") := by
   constructor <;> decide
 
-/-- a separator list satisfying the hypothesis of `readuntil_multi_sep_partial` (`\n` is a suffix of `\r\n`) -/
+/-- a separator list satisfying the hypothesis of `readuntil_regex_alternation_partial` (`\n` is a suffix of `\r\n`) -/
 theorem NoEarlyInfix_example : NoEarlyInfix [lit "\n", lit "\r\n"] := by
   intro a ha b hb d hd hp
   simp at ha hb
@@ -562,6 +631,9 @@ theorem searchStart_matches_code (buflen seplen : Nat) :
   unfold searchStart Gen.C19.searchStartCode
   repeat' split
   all_goals omega
+
+/-- the model's `readuntil` searches a separator list the way the code does (earliest end, the repair of F10) -/
+theorem list_search_matches_code : Gen.C19.listSearchMinEnd = true := by decide
 
 /-- `_should_pause_reading` (stream model and process model) -/
 theorem shouldPause_matches_code (s : St) :
